@@ -22,17 +22,37 @@ fn expected(raw: &[u8], utf8: bool) -> String {
 
 /// One archive whose entries carry `items[i]` as name (if `as_name`) or as file comment.
 fn check_foreign(items: &[Vec<u8>], utf8: bool, as_name: bool, st: &mut Stats, order0: u64) {
+    check_foreign_x(items, utf8, as_name, 0, st, order0)
+}
+
+/// `alt`: 1 = every entry also carries the Info-ZIP "Unicode Path" (0x7075) and "Unicode Comment" (0x6375) blocks with a
+/// matching CRC and some other UTF-8 text, in its local and central extra area; 2 = the same blocks with a CRC that
+/// does not match. The statement leaves no room for them: name() and comment() decode the header bytes by the flag.
+fn check_foreign_x(items: &[Vec<u8>], utf8: bool, as_name: bool, alt: u8, st: &mut Stats, order0: u64) {
+    let alt_blocks = |name: &[u8], comment: &[u8]| -> Vec<u8> {
+        if alt == 0 {
+            return vec![];
+        }
+        let blk = |id: u16, of: &[u8], text: &str| {
+            let crc = crate::reference::crc32::crc32(of) ^ if alt == 2 { 0x5a5a_5a5a } else { 0 };
+            let mut body = vec![1u8];
+            body.extend_from_slice(&crc.to_le_bytes());
+            body.extend_from_slice(text.as_bytes());
+            crate::reference::zipbuild::extra_block(id, &body)
+        };
+        [blk(0x7075, name, "unicode/p\u{e4}th-\u{2603}.txt"), blk(0x6375, comment, "unicode c\u{f6}mment")].concat()
+    };
     let mode = if utf8 { "utf8" } else { "cp437" };
     let what = if as_name { "name" } else { "comment" };
     let spec = Spec {
         entries: items
             .iter()
             .enumerate()
-            .map(|(i, it)| ESpec {
-                name: if as_name { it.clone() } else { format!("e{i}").into_bytes() },
-                comment: if as_name { vec![] } else { it.clone() },
-                utf8,
-                ..Default::default()
+            .map(|(i, it)| {
+                let name = if as_name { it.clone() } else { format!("e{i}").into_bytes() };
+                let comment = if as_name { vec![] } else { it.clone() };
+                let x = alt_blocks(&name, &comment);
+                ESpec { name, comment, utf8, local_extra: x.clone(), central_extra: x, ..Default::default() }
             })
             .collect(),
         comment: items.first().cloned().unwrap_or_default(),
@@ -42,16 +62,16 @@ fn check_foreign(items: &[Vec<u8>], utf8: bool, as_name: bool, st: &mut Stats, o
     let mut ar = match guard(|| zip::ZipArchive::new(Cursor::new(&bytes[..]))) {
         Ok(Ok(a)) => a,
         Ok(Err(e)) => {
-            st.viol(format!("open-failed/{mode}/{what}"), format!("ZipArchive::new fails on a well-formed archive: {e}"), json!({"kind":"foreign","items":[hex(&items[0])],"utf8":utf8,"as_name":as_name}), order0);
+            st.viol(format!("open-failed/{mode}/{what}"), format!("ZipArchive::new fails on a well-formed archive: {e}"), json!({"kind":"foreign","items":[hex(&items[0])],"utf8":utf8,"as_name":as_name,"alt":alt}), order0);
             return;
         }
         Err(p) => {
-            st.viol(format!("panic/open/{}", panic_site(&p)), p, json!({"kind":"foreign","items":[hex(&items[0])],"utf8":utf8,"as_name":as_name}), order0);
+            st.viol(format!("panic/open/{}", panic_site(&p)), p, json!({"kind":"foreign","items":[hex(&items[0])],"utf8":utf8,"as_name":as_name,"alt":alt}), order0);
             return;
         }
     };
     if ar.comment() != &spec.comment[..] {
-        st.viol("archive-comment/raw-bytes-changed", format!("comment() = {}, stored {}", show(ar.comment()), show(&spec.comment)), json!({"kind":"foreign","items":[hex(&items[0])],"utf8":utf8,"as_name":as_name}), order0);
+        st.viol("archive-comment/raw-bytes-changed", format!("comment() = {}, stored {}", show(ar.comment()), show(&spec.comment)), json!({"kind":"foreign","items":[hex(&items[0])],"utf8":utf8,"as_name":as_name,"alt":alt}), order0);
     }
     // the streaming reader decodes local-header names with its own code; the visitor's metadata objects carry
     // central-directory names and comments
@@ -71,7 +91,7 @@ fn check_foreign(items: &[Vec<u8>], utf8: bool, as_name: bool, st: &mut Stats, o
                             st.count("stream_names_checked", 1);
                             let want = expected(it, utf8);
                             if raw != *it || name != want {
-                                st.viol(format!("stream-name/wrong-decoding/{mode}"), format!("streaming reader: name() of bytes {} is {:?} (raw {}), expected {:?}", hex(it), name, hex(&raw), want), json!({"kind":"foreign","items":[hex(it)],"utf8":utf8,"as_name":as_name}), order0 + i as u64);
+                                st.viol(format!("stream-name/wrong-decoding/{mode}"), format!("streaming reader: name() of bytes {} is {:?} (raw {}), expected {:?}", hex(it), name, hex(&raw), want), json!({"kind":"foreign","items":[hex(it)],"utf8":utf8,"as_name":as_name,"alt":alt}), order0 + i as u64);
                             }
                         }
                     }
@@ -79,11 +99,11 @@ fn check_foreign(items: &[Vec<u8>], utf8: bool, as_name: bool, st: &mut Stats, o
                 }
                 Ok(Ok(None)) => break,
                 Ok(Err(e)) => {
-                    st.viol(format!("stream/error/{mode}/{what}"), format!("streaming reader fails on a well-formed archive at entry {i}: {e}"), json!({"kind":"foreign","items":[hex(items.get(i).unwrap_or(&items[0]))],"utf8":utf8,"as_name":as_name}), order0 + i as u64);
+                    st.viol(format!("stream/error/{mode}/{what}"), format!("streaming reader fails on a well-formed archive at entry {i}: {e}"), json!({"kind":"foreign","items":[hex(items.get(i).unwrap_or(&items[0]))],"utf8":utf8,"as_name":as_name,"alt":alt}), order0 + i as u64);
                     break;
                 }
                 Err(p) => {
-                    st.viol(format!("panic/stream/{}", panic_site(&p)), p, json!({"kind":"foreign","items":[hex(&items[0])],"utf8":utf8,"as_name":as_name}), order0);
+                    st.viol(format!("panic/stream/{}", panic_site(&p)), p, json!({"kind":"foreign","items":[hex(&items[0])],"utf8":utf8,"as_name":as_name,"alt":alt}), order0);
                     break;
                 }
             }
@@ -115,12 +135,12 @@ fn check_foreign(items: &[Vec<u8>], utf8: bool, as_name: bool, st: &mut Stats, o
         let _ = guard(|| zip::unstable::stream::ZipStreamReader::new(Cursor::new(&bytes[..])).visit(&mut v));
         st.count("visitor_metadata_checked", v.i.min(items.len()) as u64);
         for (i, got, want) in v.bad.into_iter().take(1) {
-            st.viol(format!("visitor-{what}/wrong-decoding/{mode}"), format!("visitor metadata: {what} of bytes {} is {:?}, expected {:?}", hex(&items[i]), got, want), json!({"kind":"foreign","items":[hex(&items[i])],"utf8":utf8,"as_name":as_name}), order0 + i as u64);
+            st.viol(format!("visitor-{what}/wrong-decoding/{mode}"), format!("visitor metadata: {what} of bytes {} is {:?}, expected {:?}", hex(&items[i]), got, want), json!({"kind":"foreign","items":[hex(&items[i])],"utf8":utf8,"as_name":as_name,"alt":alt}), order0 + i as u64);
         }
     }
     for (i, it) in items.iter().enumerate() {
         st.evals += 1;
-        let case = || json!({"kind":"foreign","items":[hex(it)],"utf8":utf8,"as_name":as_name});
+        let case = || json!({"kind":"foreign","items":[hex(it)],"utf8":utf8,"as_name":as_name,"alt":alt});
         let order = order0 + i as u64;
         let r = guard(|| {
             let f = ar.by_index_raw(i).map_err(|e| e.to_string())?;
@@ -242,7 +262,7 @@ fn replay(case: &Value, st: &mut Stats) {
     match case["kind"].as_str().unwrap_or("") {
         "foreign" => {
             let items: Vec<Vec<u8>> = case["items"].as_array().map(|a| a.iter().map(|x| unhex(x.as_str().unwrap_or(""))).collect()).unwrap_or_default();
-            check_foreign(&items, case["utf8"].as_bool().unwrap_or(false), case["as_name"].as_bool().unwrap_or(true), st, 0);
+            check_foreign_x(&items, case["utf8"].as_bool().unwrap_or(false), case["as_name"].as_bool().unwrap_or(true), case["alt"].as_u64().unwrap_or(0) as u8, st, 0);
         }
         _ => {
             let names: Vec<String> = case["names"].as_array().map(|a| a.iter().map(|x| x.as_str().unwrap_or("").to_string()).collect()).unwrap_or_default();
@@ -301,14 +321,16 @@ pub fn run(args: &Args) -> i32 {
     }
     ctx.stats.sample(json!({"kind":"foreign","items":["61e962"],"utf8":false,"as_name":true}));
     // every 2-byte string: 256 archives of 256 names
-    let s = par_for(256 * 4, 1, |t, st| {
+    // ... plainly, and next to Info-ZIP Unicode Path / Unicode Comment blocks (matching and non-matching CRC) that offer another text
+    let s = par_for(256 * 4 * 3, 1, |t, st| {
         let hi = (t % 256) as u8;
         let utf8 = (t / 256) % 2 == 1;
-        let as_name = t / 512 == 0;
+        let as_name = (t / 512) % 2 == 0;
+        let alt = (t / 1024) as u8;
         let items: Vec<Vec<u8>> = (0..=255u8).map(|lo| vec![hi, lo]).collect();
-        check_foreign(&items, utf8, as_name, st, (2 << 30) + ((hi as u64) << 8));
+        check_foreign_x(&items, utf8, as_name, alt, st, (2 << 30) + ((alt as u64) << 24) + ((hi as u64) << 8));
     });
-    counted += 65536 * 4;
+    counted += 65536 * 4 * 3;
     ctx.stats.merge(s);
     ctx.bound("foreign_lengths", json!(if thorough { "1, 2 and 3 bytes exhaustively in both modes as name and comment; 12 long strings" } else { "1 and 2 bytes exhaustively in both modes as name and comment, 3 bytes as UTF-8-mode names; 12 long strings" }));
     {
